@@ -16,7 +16,10 @@ import (
 	"mvdan.cc/sh/v3/shell"
 	"mvdan.cc/sh/v3/syntax"
 
+	task "github.com/go-task/task/v3"
 	"github.com/go-task/task/v3/internal/execext"
+	"github.com/go-task/task/v3/internal/logger"
+	"github.com/go-task/task/v3/taskfile/ast"
 	zz "github.com/go-task/task/v3/internal/zzsym"
 )
 
@@ -332,4 +335,113 @@ func ZZ_C19_Dialect() {
 		zz.Assert(false, "twin")
 	}
 	zz.Reach("end")
+}
+
+// ZZ_C19_Forward: the whole path of a forwarded argument up to the command line handed to
+// the shell: args.Get -> args.Parse -> the CLI_ARGS global (set as cmd/task/task.go does) ->
+// the compiler's variable resolution -> the command template "probe {{.CLI_ARGS}}".
+// The command the task runs must be "probe " followed by exactly the quoted arguments:
+// neither the variable resolution nor the command rendering may interpret their bytes
+// (run with __tmplsym=1, so the text that reaches the template engine is symbolic).
+// Natively the compiled command is also executed and its argv compared.
+func ZZ_C19_Forward() {
+	npost := 1 + zz.Choose("npost", 2)
+	var post []string
+	for k := 0; k < npost; k++ {
+		post = append(post, zz.Str(fmt.Sprintf("post%d", k), 4, zzArgAlphabet+"}."))
+	}
+	zzSetArgv([]string{"show"}, post, true)
+	argv, cli, err := Get()
+	zz.Assert(err == nil && len(argv) == 1, "no-error")
+	calls, globals := Parse(argv...)
+	globals.Set("CLI_ARGS", ast.Var{Live: cli}) // cmd/task/task.go: the CLI_ARGS global
+	tf := &ast.Taskfile{Vars: ast.NewVars(), Env: ast.NewVars(), Tasks: ast.NewTasks()}
+	cmdText := "probe {{.CLI_ARGS}}"
+	if zz.Native() {
+		cmdText = "printf '[%s]' {{.CLI_ARGS}}"
+	}
+	tf.Tasks.Set("show", &ast.Task{Task: "show", Cmds: []*ast.Cmd{{Cmd: cmdText}}, Location: &ast.Location{Taskfile: "/d/Taskfile.yml"}, Vars: ast.NewVars(), Env: ast.NewVars()})
+	tf.Vars.Merge(globals, nil)
+	lg := &logger.Logger{Stdout: io.Discard, Stderr: io.Discard}
+	e := &task.Executor{Taskfile: tf, Stdout: io.Discard, Stderr: io.Discard, Logger: lg}
+	e.Compiler = &task.Compiler{Dir: "", TaskfileEnv: tf.Env, TaskfileVars: tf.Vars, Logger: lg}
+	zz.Assert(len(calls) == 1, "one-call")
+	if len(calls) != 1 {
+		return
+	}
+	t, cerr := e.CompiledTask(calls[0])
+	ok := cerr == nil && t != nil && len(t.Cmds) == 1
+	if zz.Native() {
+		want := ""
+		for _, a := range post {
+			want += "[" + a + "]"
+		}
+		got := ""
+		if ok {
+			var out strings.Builder
+			rerr := execext.RunCommand(context.Background(), &execext.RunCommandOptions{Command: t.Cmds[0].Cmd, Stdout: &out, Stderr: io.Discard})
+			got = out.String()
+			ok = rerr == nil
+		}
+		fmt.Printf("ZZ-NOTE post=%q compile-err=%v got=%q want=%q\n", post, cerr, got, want)
+		zz.Assert(ok && got == want, "forwarded-arguments-are-not-interpreted-by-the-template-engine")
+		return
+	}
+	zz.Assert(ok && t.Cmds[0].Cmd == "probe "+cli, "forwarded-arguments-are-not-interpreted-by-the-template-engine")
+	if zz.Twin() {
+		zz.Assert(false, "twin")
+	}
+	zz.Reach("end")
+}
+
+// ZZ_C19_CLI_native replays a model of cmd/task's ZZ_C19_CLI against the built binary.
+func ZZ_C19_CLI_native() {
+	npost := 1 + zz.Choose("npost", 2)
+	var post []string
+	for k := 0; k < npost; k++ {
+		post = append(post, zz.Str(fmt.Sprintf("post%d", k), 4, ""))
+	}
+	assign := zz.Bool("assignment")
+	val := ""
+	if assign {
+		val = zz.Str("value", 3, "")
+	}
+	bin, err := zzBuildCLI()
+	if err != nil {
+		fmt.Println("ZZ-NOTE build failed:", err)
+		return
+	}
+	defer os.RemoveAll(filepath.Dir(bin))
+	wd, _ := os.MkdirTemp("", "zzwd")
+	defer os.RemoveAll(wd)
+	// a sentinel argument after the quoted value makes an empty or split value visible
+	second := "printf '<>'"
+	if assign {
+		second = "printf '<%s>' {{.NAME | q}} Z\n      - printf '(%s)' {{q .NAME}} {{shellQuote .NAME}} Z >&2"
+	}
+	os.WriteFile(filepath.Join(wd, "Taskfile.yml"), []byte("version: '3'\nsilent: true\ntasks:\n  show:\n    cmds:\n      - printf '[%s]' {{.CLI_ARGS}}\n      - "+second+"\n"), 0o644)
+	argv := []string{"show"}
+	if assign {
+		argv = append(argv, "NAME="+val)
+	}
+	argv = append(argv, "--")
+	argv = append(argv, post...)
+	cmd := exec.Command(bin, argv...)
+	cmd.Dir = wd
+	var stdout, stderr strings.Builder
+	cmd.Stdout = &stdout
+	cmd.Stderr = &stderr
+	runErr := cmd.Run()
+	want := ""
+	for _, a := range post {
+		want += "[" + a + "]"
+	}
+	fmt.Printf("ZZ-NOTE argv=%q out=%q stderr=%q err=%v\n", argv, stdout.String(), stderr.String(), runErr)
+	got := stdout.String()
+	templated := strings.Contains(val, "{{")
+	zz.Assert((runErr == nil || templated) && strings.HasPrefix(got, want), "forwarded-arguments-reach-the-command-uninterpreted")
+	if assign {
+		zz.Assert(templated || (runErr == nil && strings.HasSuffix(got, "]<"+val+"><Z>")), "assignment-value-reaches-the-command-split-at-first-equals")
+		zz.Assert(templated || (runErr == nil && stderr.String() == "("+val+")("+val+")(Z)"), "shellQuote-and-q-pass-the-value-as-one-quoted-word")
+	}
 }
